@@ -11,7 +11,7 @@ RULE = ("function level: ALL name sets over {.notdef,a,b,c,B} x ALL glyphOrder l
         "over those names+{zzz} against util.makeOfficialGlyphOrder (exhaustive small scope); end-to-end: random fonts "
         "(glyph names, public.glyphOrder or glyphOrder= argument with duplicates/unknown names/.notdef anywhere, BMP and "
         "supplementary code points, several per glyph, duplicate code points, variation sequences) through compileTTF and "
-        "compileOTF, saved and reloaded. non-trivial = glyphOrder has a duplicate or unknown name or omits a glyph, or some "
+        "compileOTF, saved and reloaded; histories: 3-4 fonts over one family's glyph names compiled one after another (compileTTF / compileOTF / alternating) or as the masters of one compileInterpolatableTTFs call with ONE shared explicit glyphOrder list object - each font's order must be the specified order for the ORIGINAL list. non-trivial = glyphOrder has a duplicate or unknown name or omits a glyph, or some "
         "code point > 0xFFFF, or a duplicate code point, or a variation sequence.")
 EXHAUSTIVE = False
 ASSUMED = ["cmap subtable binary encoding/decoding (fontTools) is an identity on the mapping"]
@@ -75,6 +75,19 @@ def gen(rng, n, mode):
                             recs[u] = owners[0]
                 uvs.append([vs, sorted(recs.items())])
             uvs.sort()
+        if i % 5 == 4:
+            # history: several fonts (sub-sets of one family's glyphs) compiled one after another, or as the masters of one
+            # interpolatable call, with ONE shared explicit glyphOrder list object
+            fam = rng.sample(POOL, min(rng.choice([4, 6, 8]), len(POOL)))
+            order = rng.sample(fam, len(fam))[: rng.randrange(2, len(fam) + 1)] + (["zzz"] if rng.random() < 0.3 else [])
+            fonts = []
+            for _ in range(rng.choice([2, 2, 3])):
+                sub = [nm for nm in fam if rng.random() < 0.65] or fam[:1]
+                fonts.append(sub)
+            fonts.append(list(fam))
+            yield {"kind": "history", "fonts": fonts, "glyphOrder": order, "lib": rng.choice(["ufoLib2", "defcon"]),
+                   "how": rng.choice(["ttf-calls", "otf-calls", "interpolatable-ttf", "mixed-calls"])}
+            continue
         yield {"kind": "font", "names": names, "glyphOrder": go, "cps": cps, "uvs": uvs,
                "arg": rng.random() < 0.4, "lib": rng.choice(["ufoLib2", "defcon"]), "fmt": rng.choice(["ttf", "otf"])}
 
@@ -96,6 +109,8 @@ def run(case):
         return out
     import ufo2ft
     from fontTools.ttLib import TTFont
+    if case["kind"] == "history":
+        return _run_history(case)
     names, go = case["names"], case["glyphOrder"]
     fd = {"glyphs": [{"name": n, "width": 500, "unicodes": case["cps"][n]} for n in names],
           "glyphOrder": None if case["arg"] else go, "lib": {}}
@@ -153,6 +168,37 @@ def run(case):
     return reqs
 
 
+def _run_history(case):
+    import ufo2ft
+    shared = list(case["glyphOrder"])       # ONE list object handed to every compile
+    fonts = []
+    for k, names in enumerate(case["fonts"]):
+        fd = {"glyphs": [{"name": n, "width": 500, "unicodes": []} for n in names], "glyphOrder": None, "lib": {},
+              "info": {"familyName": "F", "styleName": "S%d" % k}}
+        fonts.append(build(fd, case["lib"]))
+    orders, err = [], None
+    try:
+        if case["how"] == "ttf-calls":
+            orders = [ufo2ft.compileTTF(f, glyphOrder=shared, useProductionNames=False).getGlyphOrder() for f in fonts]
+        elif case["how"] == "otf-calls":
+            orders = [ufo2ft.compileOTF(f, glyphOrder=shared, useProductionNames=False, optimizeCFF=0).getGlyphOrder() for f in fonts]
+        elif case["how"] == "interpolatable-ttf":
+            orders = [t.getGlyphOrder() for t in ufo2ft.compileInterpolatableTTFs(fonts, glyphOrder=shared, useProductionNames=False)]
+        else:
+            orders = [(ufo2ft.compileTTF(f, glyphOrder=shared, useProductionNames=False) if k % 2 else
+                       ufo2ft.compileOTF(f, glyphOrder=shared, useProductionNames=False, optimizeCFF=0)).getGlyphOrder()
+                      for k, f in enumerate(fonts)]
+    except Exception as e:
+        err = err_kind(e)
+    reqs = []
+    for k, names in enumerate(case["fonts"]):
+        obs = orders[k] if err is None else ["<error:%s>" % err]
+        reqs.append({"op": "order", "in": {"names": names, "glyphOrder": case["glyphOrder"]}, "obs": obs,
+                     "nontrivial": k > 0 and any(g not in case["fonts"][j] for j in range(k) for g in case["glyphOrder"] if g in names),
+                     "tags": ["history", case["how"], case["lib"], "call#%d" % k]})
+    return reqs
+
+
 def agree(req, rep):
     m, o = rep["model"], req["obs"]
     if req["op"] != "cmap":
@@ -179,6 +225,12 @@ def agree(req, rep):
 
 
 def shrink(case):
+    if case["kind"] == "history":
+        for i in range(len(case["fonts"]) - 1):
+            c = dict(case); c["fonts"] = case["fonts"][:i] + case["fonts"][i + 1:]; yield c
+        for i in range(len(case["glyphOrder"])):
+            c = dict(case); c["glyphOrder"] = case["glyphOrder"][:i] + case["glyphOrder"][i + 1:]; yield c
+        return
     if case["kind"] != "font":
         for i in range(len(case["items"])):
             yield {"kind": "official", "items": [case["items"][i]]}
